@@ -85,7 +85,7 @@ func (g *Glyph) encodeCharString(wx, wy int32) []byte {
 				posY += dy
 			}
 		case OpCurveTo:
-			if math.Abs(cmd.Args[1]-posY) < 1e-6 && math.Abs(cmd.Args[4]-cmd.Args[2]) < 1e-6 {
+			if math.Abs(cmd.Args[1]-posY) < 1e-6 && cmd.Args[4] == cmd.Args[2] {
 				var dxa, dxb, dyb, dyc float64
 				buf, dxa = appendNumber(buf, cmd.Args[0]-posX)
 				buf, dxb = appendNumber(buf, cmd.Args[2]-posX-dxa)
@@ -94,7 +94,7 @@ func (g *Glyph) encodeCharString(wx, wy int32) []byte {
 				buf = appendOp(buf, t1hvcurveto)
 				posX += dxa + dxb
 				posY += dyb + dyc
-			} else if math.Abs(cmd.Args[0]-posX) < 1e-6 && math.Abs(cmd.Args[5]-cmd.Args[3]) < 1e-6 {
+			} else if math.Abs(cmd.Args[0]-posX) < 1e-6 && cmd.Args[5] == cmd.Args[3] {
 				var dya, dxb, dyb, dxc float64
 				buf, dya = appendNumber(buf, cmd.Args[1]-posY)
 				buf, dxb = appendNumber(buf, cmd.Args[2]-posX)
